@@ -44,6 +44,23 @@ def _bary_ok(terms, tri_pat, bc_pat):
     return all(match(tri_pat, t) is not None and match(bc_pat, bc) is not None for _, t, _, bc in terms)
 
 
+def uv_with_tol_rule(cx):
+    """shared with C02 (the projection inside uv_with_tol must see the query once-transformed, like project_with_tol itself)"""
+    b = cx.fn('geom3::mesh::Mesh::uv_with_tol')
+    if b:
+        somes = [(s, d) for s, d in cx.rets(b) if d[0] == 'agg' and d[1].endswith('Option::Some')]
+        ok = len(somes) == 1
+        if ok:
+            s, d = somes[0]
+            Q = '(phi (param point) (call Isometry::mul (unwrap (param transform)) (param point)))'
+            PR = f'(unwrap (call *Mesh::project_with_tol (param self) {Q} (param max_dist) (param max_angle) (agg *Option::None)))'
+            e = match(f'(agg * (0 (agg tuple (0 (call *UvMapping::point _ (field 1 {PR}) (unwrap (call TrianglePointLocation::barycentric_coordinates (field 2 {PR}))))) '
+                      f'(1 (call *SurfacePoint::scalar_projection (call *SurfacePoint::new (field point (field 0 {PR})) (unwrap (call Triangle::normal (call TriMesh::triangle (field shape (param self)) (field 1 {PR}))))) {Q})))))', d)
+            ok = e is not None
+        cx.ob('EXPR', 'Mesh::uv_with_tol', ok,
+              'the (optionally transformed, once) query is projected; uv = uv_map.point(face id, barycentric location of that projection); depth = scalar projection of the query on (projection point, normal of that face)', where=b.file)
+
+
 def run(cx):
     # the flattening consumes the edge tables of identify_edges: manifold guard, boundary-map entries, face_edges order (rule shared with C12)
     from rules.C12 import identify_edges_rules
@@ -260,16 +277,4 @@ def run(cx):
         okb = any(_bary_ok(t, T, f'(field 1 {LK})') for t in (_bary_terms(d) for d in sums) if t is not None)
         ok = okb and find(f'(call Triangle::normal {T})', r) is not None
         cx.ob('EXPR', 'Mesh::uv_to_3d', ok, '3D point = a*bc[0] + b*bc[1] + c*bc[2] on the MESH triangle with the id the UV lookup returned, same barycentric order as UvMapping::point, normal of that triangle', where=b.file)
-    b = cx.fn('geom3::mesh::Mesh::uv_with_tol')
-    if b:
-        somes = [(s, d) for s, d in cx.rets(b) if d[0] == 'agg' and d[1].endswith('Option::Some')]
-        ok = len(somes) == 1
-        if ok:
-            s, d = somes[0]
-            Q = '(phi (param point) (call Isometry::mul (unwrap (param transform)) (param point)))'
-            PR = f'(unwrap (call *Mesh::project_with_tol (param self) {Q} (param max_dist) (param max_angle) (agg *Option::None)))'
-            e = match(f'(agg * (0 (agg tuple (0 (call *UvMapping::point _ (field 1 {PR}) (unwrap (call TrianglePointLocation::barycentric_coordinates (field 2 {PR}))))) '
-                      f'(1 (call *SurfacePoint::scalar_projection (call *SurfacePoint::new (field point (field 0 {PR})) (unwrap (call Triangle::normal (call TriMesh::triangle (field shape (param self)) (field 1 {PR}))))) {Q})))))', d)
-            ok = e is not None
-        cx.ob('EXPR', 'Mesh::uv_with_tol', ok,
-              'the (optionally transformed, once) query is projected; uv = uv_map.point(face id, barycentric location of that projection); depth = scalar projection of the query on (projection point, normal of that face)', where=b.file)
+    uv_with_tol_rule(cx)
